@@ -11,7 +11,7 @@
 EXTENDS Naturals, Sequences, FiniteSets, TLC
 
 (* the data of a response: absent, present without bytes, one zero byte, some bytes *)
-DataShapes == {"none", "empty", "zero", "bytes"}
+DataShapes == {"none", "empty", "zero", "bytes", "long"}      \* ("long": more bytes than any size limit a chain sets by default)
 MsgKinds == {"wasm", "bank", "staking", "distribution", "stargate", "ibc", "gov", "custom"}
 
 VARIABLES resp,     \* what the bridged handler returned
